@@ -785,6 +785,10 @@ def gen_prop(ch, cls, machine):
         return {'pk': k, 't': PR_NOCOPY}
     if k == 'word':
         return {'pk': k, 't': ch.choice(words_for(machine)), 'v': ch.word(32)}
+    if machine in M_AARCH64 and ch.int(0, 3) == 0:
+        # processor-specific properties that are not 4-byte words: AArch64 0xc0000001 (PAUTH ABI: platform and version, 2 x 8 bytes); and
+        # neighbours of the named numbers with data of any length (an unknown type is reported with all of its bytes)
+        return {'pk': k, 't': ch.choice([0xc0000001, 0xc0000001, 0xc0000002, 0xc0000004, 0xc0008002]), 'd': ch.bytes(ch.choice([16, 16, 8, 12, 24]))}
     if ch.int(0, 3) == 0:
         return {'pk': k, 't': ch.choice(PR_UNKNOWN_W4_POOL), 'd': ch.bytes(4)}
     return {'pk': k, 't': ch.choice(PR_UNKNOWN_POOL), 'd': ch.bytes(ch.choice([0, 1, 3, 4, 5, 8, 9, 12, 16, ch.int(0, 24)]))}
@@ -1004,6 +1008,8 @@ def sweep(tier):
         for mi, mach in enumerate((62, 3, 183, 243, 8)):
             ws = words_for(mach)
             plist = [{'pk': 'word', 't': t, 'v': (1, 0x80000000, 0xffffffff, 3, 0)[(k + mi) % 5]} for k, t in enumerate(ws)]
+            if mach == 183:
+                plist.append({'pk': 'unk', 't': 0xc0000001, 'd': bytes(range(0x10, 0x20))})
             cases.append(_mk(cls, le, core, views[(ci + mi) % 3], [{'k': 'prop', 'props': plist}, {'k': 'prop', 'props': plist[::-1] + plist}],
                              machine=mach, lay={'gap4': mi % 2, 'at_end': mi % 2 == 0, 'tail': 0, 'p_vaddr': 0, 'p_memsz': 0, 'addr': 0x3000}))
         # core kinds, every machine of both uid-width sets (ELF32) / the 64-bit list (ELF64)
